@@ -38,10 +38,24 @@ CHECKS["C17"] = dict(
          "two event kinds without default handlers; <=4 handlers.",
     design_ref="5/C17", engine="EventManager")
 
+CHECKS["C15"] = dict(
+    category="model_checking",
+    technique="TLA+ contract (Loader) + implementation model (LoaderImpl: LRUs, active bundle, index, files) checked in TLC over a grid of capacities; trace validation of exhaustive history trees on real loader classes",
+    text="TLC proves on LoaderImpl that every get answers the latest save and that a synced restore loses nothing, for all histories "
+         "at small constants over the grid item-cache x bundle-cache x MAX_ROWS (two pinned-code deviations are negative controls); "
+         "exhaustive save/get/export/export_indexing/restore trees run on real ScopeHierarchyLoader, UnitGIRLoader and CFGLoader objects "
+         "and every get - in the saving loader and in a fresh loader restored from the files - is judged by the contract, while the "
+         "logged LRU orders, index, counters are compared with the model after every call.",
+    note="Trusts TLC/Json, pandas/feather for reading files back; three loader families built on GeneralLoader with synthetic items of 0-2 rows; "
+         "zero-row item == absent item; restore only when synced; write failure probe: export of an unserialisable bundle must raise or print.",
+    design_ref="5/C15", engine="Loader")
+
 NOT_YET = {
 }
 
 ENGINES = [
+    dict(name="Loader", path="specs/Loader.tla specs/LoaderImpl.tla specs/LoaderTrace.tla harness/c15.py harness/drive_c15.py",
+         serves_properties=["C15"], kind_free_text="TLA+ contract + implementation model + trace spec, TLC"),
     dict(name="EventManager", path="specs/EventManager.tla specs/EventManagerTrace.tla harness/c17.py harness/drive_c17.py",
          serves_properties=["C17"], kind_free_text="TLA+ contract + loop model + trace spec, TLC"),
     dict(name="DataModel", path="specs/DataModel.tla specs/DataModelImpl.tla specs/DataModelTrace.tla harness/c16.py harness/drive_c16.py",
